@@ -113,7 +113,8 @@ Proof.
     first [ left; reflexivity
           | right; eexists [_]; split; [reflexivity|split; reflexivity]
           | right; eexists [_; _]; split; [reflexivity|split; reflexivity]
-          | right; eexists [_; _; _]; split; [reflexivity|split; reflexivity] ].
+          | right; eexists [_; _; _]; split; [reflexivity|split; reflexivity]
+          | right; eexists [_; _; _; _]; split; [reflexivity|split; reflexivity] ].
 Qed.
 
 (* ---------------- traces of one connection ---------------- *)
